@@ -391,6 +391,7 @@ def real_backtests(rep: Report, rng: random.Random, wd: str, quick: bool):
             for h in S["handlers"]:
                 h["yields"] = rng.choice([0, 1, 2])
         jobs.append(S)
+    jobs += c03_real.directed_scenarios()
     ctx = mp.get_context("fork")
     with ctx.Pool(tlc.NCPU) as pool:
         runs = pool.map(_run_real, jobs, chunksize=max(1, len(jobs) // (tlc.NCPU * 4)))
